@@ -456,4 +456,73 @@ def Sys.ckptStepsOld (crc : Bytes → Nat) (enc : Entry → Bytes) (sy : Sys) (i
 /-- disk contents a crash can leave: any cut of the log at or after the synced length -/
 def Sys.crashFile (sy : Sys) (n : Nat) : Bytes := sy.wal.file.take (max n sy.wal.syncedLen)
 
+/-! ### scripts of operations and explicit syncs (the `Batched` / `Manual` acknowledgement rule) -/
+
+/-- what a session does between `open` and the crash: durable operations and `wal_sync` calls -/
+inductive Act where
+  | op (o : Op)
+  | sync
+  deriving DecidableEq, Repr
+
+def Sys.act (crc : Bytes → Nat) (enc : Entry → Bytes) (sy : Sys) : Act → Sys
+  | .op o => Sys.op crc enc sy o
+  | .sync => sy.sync
+
+/-- the operations of a script, in order -/
+def opsOf : List Act → List Op
+  | [] => []
+  | .op o :: r => o :: opsOf r
+  | .sync :: r => opsOf r
+
+/-- a freshly opened durable store (`open_durable` on an empty directory) -/
+def Sys.fresh (mode : SyncMode) : Sys := ⟨mode, Wal.openOn [], Store.empty, none⟩
+
+/-! ### `TensorStore` with a Bloom filter (`open_durable_with_bloom`, `recover_with_bloom`) -/
+
+/-- the router plus the keys the filter has been given (`filter.add`).  `get` / `exists` answer
+    "absent" without looking at the router for a key the filter says it has never seen; a real
+    Bloom filter may also answer "maybe" for keys it was never given (`fp`, arbitrary). -/
+structure BStore where
+  store : Store
+  added : List Bytes
+  deriving Repr
+
+def BStore.mightContain (fp : Bytes → Bool) (b : BStore) (k : Bytes) : Bool := b.added.contains k || fp k
+
+/-- `TensorStore::get` with a filter -/
+def BStore.get (fp : Bytes → Bool) (b : BStore) (k : Bytes) : Option Val :=
+  if b.mightContain fp k then Neumann.Durable.get b.store k else none
+
+/-- `TensorStore::exists` with a filter -/
+def BStore.exists_ (fp : Bytes → Bool) (b : BStore) (k : Bytes) : Bool :=
+  if b.mightContain fp k then Neumann.Durable.exists_ b.store k else false
+
+/-- `TensorStore::put_durable`: `filter.add(key)`, then the router -/
+def BStore.putDurable (b : BStore) (k : Bytes) (v : Val) : List Entry × BStore :=
+  let r := Neumann.Durable.putDurable b.store k v
+  (r.1, ⟨r.2, k :: b.added⟩)
+
+/-- `TensorStore::delete_durable`: the filter is left alone -/
+def BStore.deleteDurable (b : BStore) (k : Bytes) : List Entry × BStore × Bool :=
+  let r := Neumann.Durable.deleteDurable b.store k
+  (r.1, ⟨r.2.1, b.added⟩, r.2.2)
+
+def BStore.step (b : BStore) : Op → List Entry × BStore
+  | .put k v => b.putDurable k v
+  | .delete k => let r := b.deleteDurable k; (r.1, r.2.1)
+
+def BStore.runOps (b : BStore) : List Op → BStore
+  | [] => b
+  | op :: ops => BStore.runOps (b.step op).2 ops
+
+/-- `open_durable_with_bloom`: empty store, empty filter -/
+def BStore.empty : BStore := ⟨Store.empty, []⟩
+
+/-- `recover_with_bloom`: recover, then rebuild the filter from `router.scan("")` -/
+def recoverBloom (crc : Bytes → Nat) (dec : Bytes → Option Entry) (snap : Option Store) (file : Bytes) :
+    Except RecErr BStore :=
+  match recover crc dec snap file with
+  | .ok r => .ok ⟨r, scanKeys r⟩
+  | .error e => .error e
+
 end Neumann.Durable
